@@ -71,6 +71,17 @@ func genC09(rng *rand.Rand, tier string) *sim.Plan {
 		if chance(rng, 0.8) {
 			sp.Ops = append(sp.Ops, sim.Op{K: "unsubscribe", C: c, Filters: []string{fmt.Sprintf("e/%d/+", c)}})
 		}
+		if v5 && chance(rng, 0.6) {
+			// shared subscriptions: one on the very filter of a plain subscription of the same client (two entries
+			// that differ in the share name only), one that is removed again
+			sp.Ops = append(sp.Ops, sim.Op{K: "subscribe", C: c, Subs: []mqttc.Sub{{Filter: fmt.Sprintf("$share/g/keep/%d", c), QoS: 1}, {Filter: fmt.Sprintf("$share/h/gone/%d", c), QoS: 1}}})
+			sp.Ops = append(sp.Ops, sim.Op{K: "unsubscribe", C: c, Filters: []string{fmt.Sprintf("$share/h/gone/%d", c)}})
+		}
+	}
+	if chance(rng, 0.3) {
+		// the connections last longer than the session expiry interval before anything else happens: a session's
+		// lifetime is counted from the end of its connection (here: the crash), not from its CONNECT
+		sp.Advance = sim.Sec(101000)
 	}
 	p.Phases = append(p.Phases, sp)
 	if chance(rng, 0.6) {
@@ -476,7 +487,11 @@ func runC09(tb TB, p *sim.Plan) *sim.Outcome {
 				var found *sim.SubView
 				for i := range dump.Subs[cid] {
 					sv := &dump.Subs[cid][i]
-					if sv.Filter == sf.sub.Filter && sv.Share == "" {
+					full := sv.Filter
+					if sv.Share != "" {
+						full = "$share/" + sv.Share + "/" + sv.Filter
+					}
+					if full == sf.sub.Filter {
 						found = sv
 					}
 				}
